@@ -312,3 +312,148 @@ Proof.
       * rewrite Hw in Hn. inversion Hn; subst y. exists x. auto.
       * exists y. auto.
 Qed.
+
+(* ---- the invariant of a run with events ---- *)
+Definition good (F : list nat) (h : heap) : Prop :=
+  exists g, echeck e0 (rev (tr h)) = Some g /\ hinv [] h /\ agreeE g h /\ frames_of g F /\ FS g F.
+
+Lemma echeck_logged : forall h h1 o g, echeck e0 (rev (tr h)) = Some g -> tr h1 = o :: tr h ->
+  echeck e0 (rev (tr h1)) = match estep g o with Some g' => Some g' | None => None end.
+Proof.
+  intros h h1 o g Hg E. rewrite E. cbn [rev]. rewrite echeck_app, Hg. cbn. destruct (estep g o); reflexivity.
+Qed.
+
+(* a framed window is allocated *)
+Lemma good_framed_live : forall F h i, good F h -> In i F -> findw h (addr_of i) <> None.
+Proof.
+  intros F h i (g & _ & HI & AG & [Hfr Hb] & _) Hin.
+  assert (Hlt : (i < length g)%nat) by (apply Hb; exact Hin).
+  destruct (nth_error g i) as [x|] eqn:Hn; [|apply nth_error_None in Hn; lia].
+  pose proof (ae_cells g h AG i x Hn) as C. pose proof (Hfr i x Hn) as Ef.
+  assert ((0 < count_occ Nat.eq_dec F i)%nat) by (apply count_pos_in; exact Hin).
+  destruct (findw h (addr_of i)); [congruence|]. destruct C as (_ & C2 & _). lia.
+Qed.
+
+(* a dispatch frame takes its reference *)
+Lemma good_push : forall f F h w c, good F h -> findw h w = Some c ->
+  (forall p, w_parent c = Some p -> In (idx p) F) ->
+  match frame_run f (OFrameRef w) h with
+  | Ok _ h' => good (idx w :: F) h'
+  | Fault _ _ => False
+  | NoFuel => True
+  end.
+Proof.
+  intros f F h w c (g & Hg & HI & AG & Hfr & HF) Hw Hpar.
+  assert (Hl : findw h w <> None) by congruence.
+  pose proof (run_frame_ok f (OFrameRef w) h HI eq_refl Hl) as Hrun.
+  destruct (frame_run f (OFrameRef w) h) as [u h'| |]; [|contradiction|exact I].
+  destruct Hrun as (HI' & Heff & Htr).
+  destruct (agreeE_live_cell g h HI AG w c Hw) as (x & Hx & Href & Hc0 & Hf0 & Hp).
+  pose proof (hi_ref [] h HI w c Hw (fun y => y)) as Hr1.
+  assert (Hs : exists g', estep g (OFrameRef w) = Some g').
+  { cbn [estep]. unfold ealive, eget. rewrite Hx. assert (E : (0 <? e_cnt x + e_fr x) = true) by (apply Z.ltb_lt; lia). rewrite E. eauto. }
+  destruct Hs as [g' Hs].
+  destruct (step_agreeE g h (OFrameRef w) g' HI AG (or_intror eq_refl) Hs I) as [_ Hag].
+  destruct (estep_push g w g' F Hs Hfr) as (Hfr' & Hps & _).
+  exists g'. split; [rewrite (echeck_logged h h' _ g Hg Htr), Hs; reflexivity|]. split; [exact HI'|]. split; [apply Hag; exact Heff|].
+  split; [exact Hfr'|].
+  (* the new frame's parent is framed further out; the older frames keep theirs *)
+  intros F1 i F2 x' p E Hn' Hp'.
+  destruct Hps as [_ Hps]. destruct Hfr as [_ Hb].
+  destruct F1 as [|j F1]; cbn in E; inversion E; subst.
+  - assert (Hlt : (idx w < length g)%nat) by (apply nth_error_Some; congruence).
+    destruct (Hps (idx w) x' Hn' Hlt) as (x0 & Hx0 & [Ep|Ep]); [|congruence]. rewrite Hx in Hx0. inversion Hx0; subst x0.
+    rewrite Hp' in Ep. rewrite <- Ep in Hp. cbn in Hp. specialize (Hpar (addr_of p) (eq_sym Hp)). rewrite idx_addr in Hpar. exact Hpar.
+  - assert (Hlt : (i < length g)%nat) by (apply Hb; apply in_or_app; right; left; reflexivity).
+    destruct (Hps i x' Hn' Hlt) as (x0 & Hx0 & [Ep|Ep]); [|congruence].
+    apply (HF F1 i F2 x0 p eq_refl Hx0). congruence.
+Qed.
+
+(* ... and lets go of it: the window goes if that was the last reference of either kind *)
+Lemma good_pop : forall f F h w, good (idx w :: F) h ->
+  match frame_run f (OFrameUnref w) h with
+  | Ok _ h' => good F h'
+  | Fault _ _ => False
+  | NoFuel => True
+  end.
+Proof.
+  intros f F h w G. pose proof (good_framed_live _ h (idx w) G (or_introl eq_refl)) as Hl. rewrite addr_idx in Hl.
+  destruct G as (g & Hg & HI & AG & Hfr & HF).
+  pose proof (run_frame_ok f (OFrameUnref w) h HI eq_refl Hl) as Hrun.
+  destruct (frame_run f (OFrameUnref w) h) as [u h'| |]; [|contradiction|exact I].
+  destruct Hrun as (HI' & Heff & Htr).
+  destruct (live_some h w Hl) as [c Hw].
+  destruct (agreeE_live_cell g h HI AG w c Hw) as (x & Hx & Href & Hc0 & Hf0 & Hp).
+  assert (Hfx : 0 < e_fr x).
+  { destruct Hfr as [Hfr _]. rewrite (Hfr _ x Hx). cbn. destruct (Nat.eq_dec (idx w) (idx w)); [lia|congruence]. }
+  assert (Hs : exists g', estep g (OFrameUnref w) = Some g').
+  { cbn [estep]. unfold eget. rewrite Hx. assert (E : (0 <? e_fr x) = true) by (apply Z.ltb_lt; lia). rewrite E.
+    destruct (e_cnt x + e_fr x =? 1); eauto. }
+  destruct Hs as [g' Hs].
+  assert (Hnf : no_frame_below g (OFrameUnref w)).
+  { intros xw Hxw Ht. rewrite Hx in Hxw. inversion Hxw; subst xw. apply (nfb_from_FS g (idx w :: F) (idx w) Hfr HF).
+    cbn [tl]. intro Hin. destruct Hfr as [Hfr _]. pose proof (Hfr _ x Hx) as E. cbn in E.
+    destruct (Nat.eq_dec (idx w) (idx w)); [|congruence].
+    assert ((0 < count_occ Nat.eq_dec F (idx w))%nat) by (apply count_pos_in; exact Hin). lia. }
+  destruct (step_agreeE g h (OFrameUnref w) g' HI AG (or_intror eq_refl) Hs Hnf) as [_ Hag].
+  destruct (estep_pop g w g' F Hs (agreeE_nonneg g h AG) Hfr) as (Hfr' & Hps).
+  exists g'. split; [rewrite (echeck_logged h h' _ g Hg Htr), Hs; reflexivity|]. split; [exact HI'|]. split; [apply Hag; exact Heff|].
+  split; [exact Hfr'|]. apply (FS_shrinks g g' F (FS_tail g (idx w) F HF)); [|exact Hps].
+  intros i Hi. destruct Hfr as [_ Hb]. apply Hb. right. exact Hi.
+Qed.
+
+Lemma op_eq_nop : forall o : op, o = ONop \/ o <> ONop.
+Proof. intro o. destruct o; (left; reflexivity) || (right; discriminate). Qed.
+
+(* a client call: the call is in the trace, and nothing else is written there *)
+Lemma run_op_trace : forall fuel o h, event_free_op o = true -> o <> ONop ->
+  match run_op fixed fuel o h with
+  | Ok _ h' => tr h' = o :: tr h
+  | Fault _ hf => tr hf = o :: tr h
+  | NoFuel => True
+  end.
+Proof.
+  intros fuel o h Hef Hne. destruct fuel as [|f]; [exact I|]. rewrite run_op_F.
+  set (h1 := mkHeap (wins h) (reqs h) (rx h) (nextw h) (nextq h) (dlog h) (uninit_seen h) (o :: tr h)).
+  assert (G : forall (m : M unit), ktr m -> match m h1 with Ok _ h' => tr h' = o :: tr h | Fault _ hf => tr hf = o :: tr h | NoFuel => True end).
+  { intros m K. specialize (K h1). destruct (m h1); auto. }
+  destruct o; cbn in Hef; try discriminate; try congruence; unfold bind at 1; unfold log_op; fold h1; apply G; ktr_auto.
+Qed.
+
+Lemma good_client : forall fuel o F h, good F h -> event_free_op o = true ->
+  match run_op fixed fuel o h with
+  | Ok _ h' => ill h' \/ good F h'
+  | Fault _ hf => ill hf
+  | NoFuel => True
+  end.
+Proof.
+  intros fuel o F h G Hef.
+  destruct (op_eq_nop o) as [->|Hne].
+  { destruct fuel as [|f]; [exact I|]. rewrite run_op_F. cbn. right. exact G. }
+  pose proof (run_op_trace fuel o h Hef Hne) as Htr.
+  destruct G as (g & Hg & HI & AG & Hfr & HF).
+  destruct (estep g o) as [g'|] eqn:Hs.
+  - (* the call is allowed: its precondition holds, it completes, the ghost follows *)
+    assert (Hk : is_frame_op o = false) by (destruct o; cbn in Hef |- *; congruence).
+    assert (Hnf : no_frame_below g o).
+    { destruct o; cbn; auto; cbn in Hef; try discriminate.
+      intros xw Hxw Ht. cbn [estep] in Hs. unfold eget in Hs. rewrite Hxw in Hs.
+      destruct (0 <? e_cnt xw) eqn:Hp; [|discriminate]. apply Z.ltb_lt in Hp.
+      apply (nfb_from_FS g F (idx w) Hfr HF). intro Hin.
+      assert (Hin' : In (idx w) F) by (destruct F; [destruct Hin|right; exact Hin]).
+      destruct Hfr as [Hfr _]. pose proof (Hfr _ xw Hxw) as E.
+      assert ((0 < count_occ Nat.eq_dec F (idx w))%nat) by (apply count_pos_in; exact Hin').
+      destruct (agreeE_nonneg g h AG _ xw Hxw). lia. }
+    destruct (step_agreeE g h o g' HI AG (or_introl Hef) Hs Hnf) as [Hpre Hag].
+    assert (Hpre' : op_pre h o) by (destruct o; cbn in Hef; try discriminate; exact Hpre).
+    pose proof (run_op_ok fuel o h HI Hef Hpre') as Hok.
+    pose proof (run_op_eff fuel o h HI Hef Hpre') as Heff.
+    destruct (run_op fixed fuel o h) as [u h'| |]; [|contradiction|exact I].
+    right. destruct (estep_client_frames g o g' F Hs Hk (agreeE_nonneg g h AG) Hfr Hnf) as (Hfr' & Hps).
+    exists g'. split; [rewrite (echeck_logged h h' o g Hg Htr), Hs; reflexivity|]. split; [exact Hok|].
+    split; [apply Hag; destruct o; cbn in Hef; try discriminate; exact Heff|]. split; [exact Hfr'|].
+    apply (FS_shrinks g g' F HF); [apply Hfr|exact Hps].
+  - (* the client had no right to make it: the trace is no longer one of a well-behaved client *)
+    destruct (run_op fixed fuel o h) as [u h'| |]; [left| |exact I]; unfold ill;
+      rewrite (echeck_logged h _ o g Hg Htr), Hs; reflexivity.
+Qed.
